@@ -23,8 +23,7 @@ from unittest import mock
 from hypothesis import strategies as st
 
 from vlib.runner import Part, Out
-from vlib import aio
-from vlib.oneworker import prepare_loop, bounded
+from vlib.oneworker import run_fresh, bounded
 from vlib.ref import descriptor as ref
 
 PROPERTY_ID = "C02"
@@ -349,8 +348,7 @@ async def _run_stream(case, out):
 
 def run_stream(case):
     out = Out()
-    loop = prepare_loop()
-    aio.run(_run_stream(case, out), loop)
+    run_fresh(lambda loop: _run_stream(case, out))
     return out
 
 
@@ -708,8 +706,7 @@ async def _run_tamper(case, out):
 
 def run_tamper(case):
     out = Out()
-    loop = prepare_loop()
-    aio.run(_run_tamper(case, out), loop)
+    run_fresh(lambda loop: _run_tamper(case, out))
     return out
 
 
